@@ -321,7 +321,7 @@ pub fn run_sub(prop: &str, sub: &SubCheck, tier: Tier, seed: u64) -> SubReport {
 #[derive(Clone, Debug)]
 pub struct KnownFinding {
     pub id: String,
-    pub property: String,
+    pub properties: Vec<String>,
     pub status: String,
     pub signature: String,
     pub what: String,
@@ -335,9 +335,17 @@ pub fn load_known_findings() -> Vec<KnownFinding> {
     if let Some(arr) = v.get("findings").and_then(|a| a.as_array()) {
         for f in arr {
             let g = |k: &str| f.get(k).and_then(|x| x.as_str()).unwrap_or("").to_string();
+            let mut properties: Vec<String> = f
+                .get("properties")
+                .and_then(|a| a.as_array())
+                .map(|a| a.iter().filter_map(|x| x.as_str().map(|s| s.to_string())).collect())
+                .unwrap_or_default();
+            if !g("property").is_empty() {
+                properties.push(g("property"));
+            }
             out.push(KnownFinding {
                 id: g("id"),
-                property: g("property"),
+                properties,
                 status: g("status"),
                 signature: g("signature"),
                 what: g("what"),
@@ -385,7 +393,7 @@ pub fn run_property(prop: &str, level_text: &str, subs: &[SubCheck], tier: Tier,
         for (fl, desc) in &r.failures {
             let kf = known
                 .iter()
-                .find(|k| k.property == prop && k.status == "open" && k.signature == fl.signature);
+                .find(|k| k.properties.iter().any(|p| p == prop) && k.status == "open" && k.signature == fl.signature);
             if let Some(k) = kf {
                 let e = known_hits.entry(k.id.clone()).or_insert(0);
                 *e += 1;
